@@ -349,6 +349,8 @@ pub fn gen(tier: Tier, rng: &mut Rng64, out: &mut Out) {
             _ => fmt_triples(&cube_triples(n, &[(19, true)])),
         };
         run("C09.law", &[n.to_string(), small.clone(), big.clone()], out);
+        // the big operand alone through exact_cardinality, exact_clause_cardinality, cardinality, support_set, size_per_variable
+        if k == 0 || thorough { run("C09.cnt", &[big.clone()], out); }
         run("C09.law", &[n.to_string(), big, small], out);
     }
     // --- malformed stream (kept apart): a reachable link outside the array is an index panic; garbage
